@@ -11,6 +11,7 @@ CONSTANTS
   DialMayFail = FALSE
   WithClose = FALSE
   MayCancel = FALSE
+  DialedAtStart = TRUE
   MayReset = FALSE
   MaySrvClose = TRUE
 INVARIANTS Safety Recovers
